@@ -90,7 +90,7 @@ def _with_length_clause(ensures):
 
 
 def fcontract(cls, meth, cases, loops=None, lemmas=(), requires=None, sub_seq=True, tags=T, extra_fields=None, models=('bytesio',), instance_cls=None,
-              sequential_build=True):
+              sequential_build=True, foreign_errors=False):
     qual = '%s:%s.%s' % (CORE, cls, meth)
     if meth == '_build' and sequential_build:
         for case in cases:
@@ -98,8 +98,9 @@ def fcontract(cls, meth, cases, loops=None, lemmas=(), requires=None, sub_seq=Tr
                 case.ensures = _with_length_clause(case.ensures)
     c = FnContract(qual, cases, requires=requires, loops=loops or {}, setup=method_setup(instance_cls or cls, extra_fields), tags=tags, lemmas=lemmas,
                    stream_models=models)
-    c.iface = dict(sub_seq=sub_seq, params_total=True)
+    c.iface = dict(sub_seq=sub_seq, params_total=True, foreign_errors=foreign_errors)
     c.modifies_heap = False
+    c.heap_pure = False         # used at a call site, the scope heap afterwards is what the clauses say, nothing more
     if loops:
         LOOPS[qual] = loops
     return register(c)
